@@ -255,6 +255,7 @@ RECURSIVE WithPrelude(_, _)
 WithPrelude(s, k) == IF k > Len(Prelude) THEN s
                      ELSE WithPrelude(Append(s, MkNode(s, Prelude[k].op, Prelude[k].args, Prelude[k].mi)), k + 1)
 NInit == Len(Args) + Len(Coefs) + Len(Lits) + Len(Prelude)
+Store0 == WithPrelude(Base, 1)     \* (a constant: evaluated once, not once per sampled program)
 CoefId(k) == Len(Args) + k
 
 \* a sampled program: every step must satisfy the constructor's guard
@@ -276,9 +277,9 @@ FormOk(s, ints) == /\ Len(ints) \in {1, 2}
                                                /\ KeyOk(s, ints[k].key, ints[k].root)
 
 Init == IF Programs = {}
-        THEN store = WithPrelude(Base, 1) /\ form = << >> /\ res = "none"
+        THEN store = Store0 /\ form = << >> /\ res = "none"
         ELSE \E pr \in Programs :
-               LET s == RunProg(WithPrelude(Base, 1), pr.prog, 1) IN
+               LET s == RunProg(Store0, pr.prog, 1) IN
                /\ s # << >> /\ FormOk(s, pr.ints)
                /\ store = s /\ form = pr.ints /\ res = "none"
 
